@@ -520,10 +520,22 @@ func checkGlobals(P *Program, prop string) []StructResult {
 								if !ok {
 									if ci, isCall := in.(ssa.CallInstruction); isCall {
 										if callee := ci.Common().StaticCallee(); callee != nil && strings.HasPrefix(callee.String(), "sync/atomic.") {
-											continue
+											ok = true
 										}
 									}
+								}
+								if !ok {
 									bad = append(bad, fmt.Sprintf("%s accesses it without sync/atomic (%s) [%T %v]", fnKey(fn), posOf(fn, in.Pos()), in, in))
+									continue
+								}
+								// every update is one indivisible read-modify-write: a Store/Swap publishes a value computed from
+								// an earlier load, so two updates can be lost or repeated although each access is atomic
+								if ci, isCall := in.(ssa.CallInstruction); isCall {
+									if callee := ci.Common().StaticCallee(); callee != nil {
+										if n := callee.Name(); strings.HasPrefix(n, "Store") || strings.HasPrefix(n, "Swap") {
+											bad = append(bad, fmt.Sprintf("%s updates it with atomic.%s, which is not a read-modify-write (%s)", fnKey(fn), n, posOf(fn, in.Pos())))
+										}
+									}
 								}
 							}
 						}
